@@ -1,5 +1,12 @@
-(* C03 -- A restart at any instant loses no assignment and resurrects none. *)
-From NIPAM Require Import Sys Alloc_proofs Sys_proofs.
+(* C03 -- A restart at any instant loses no assignment and resurrects none.
+   Proved: a crash keeps exactly the API objects (no assignment is lost: assignments live in the nodes' spec); the new
+   incarnation's state is a function of the API objects only (nothing that is not in the API objects is resurrected);
+   and over whole histories with ANY NUMBER OF RESTARTS at arbitrary points (Hist3_proofs.v): no incarnation ever gives
+   a node a pod CIDR overlapping what another existing node -- or a node whose deletion it has not processed yet -- holds,
+   whether that was assigned by this incarnation or by an earlier one.
+   Wiring (main.go lists nodes, constructs, starts informers, runs): gen/C03_current.v from translator facts.
+   Outside the theorem's universe (monitored): tombstones, relists, nodes marked deleting, pre-set pod CIDRs. *)
+From NIPAM Require Import Sys Alloc_proofs Sys_proofs Hist_proofs Hist2_proofs Hist3_proofs.
 Open Scope N_scope.
 
 (* a crash keeps the API objects and forgets everything else *)
@@ -29,3 +36,12 @@ Theorem C03_guarantees_hold_across_restarts :
       forall c nd c' canon, In c cs -> In nd (w_ncache wb) -> In (PGood c' canon) (n_cidrs nd) -> overlapb c c' = false.
 Proof. exact history_patches_avoid_cached_nodes. Qed.
 Print Assumptions C03_guarantees_hold_across_restarts.
+
+(* across restarts: whatever earlier incarnations assigned is respected by every later one *)
+Theorem C03_assignments_survive_any_number_of_restarts :
+  forall po lab ops,
+  Forall tame3_op ops -> NoDup (flat_map created ops) ->
+  let w := run po lab init_world ops in
+  forall n1 c1 n2 c2, holder w n1 c1 -> holder w n2 c2 -> n1 <> n2 -> overlapb c1 c2 = false.
+Proof. exact no_overlap_across_restarts. Qed.
+Print Assumptions C03_assignments_survive_any_number_of_restarts.
